@@ -406,3 +406,11 @@ PLANS["C11"]["min_counts"]["quick"].update({"c11.gen.completed": 100000, "c11.ge
 PLANS["C11"]["rule"] += (" stage 3: name sets chosen at run time -- a hand-written Autocomplete that offers every name starting with the typed word, as the generated one does -- 60k / 1.2M random sets of 2-6 names "
                          "from one or two neighbouring 64-code-point blocks (so that names part company inside a character; octets 0x80 / 0xBF over-represented), any order, every prefix, with and without a trailing blank, capacities around the fit.")
 PLANS["C11"]["min_counts"]["thorough"].update({"c11.gen.completed": 800000, "c11.gen.fit.ContDoesNotFit": 150000, "c11.dyn.completed": 4000000})
+
+# every scalar value inside a name that Tab has to complete, the free space ending before / inside / after the character
+for _p in ("C17", "C02", "C11"):
+    PLANS[_p]["stages"].append({"variant": "dbg", "workload": "C17-complete"})
+    PLANS[_p]["min_counts"]["quick"].update({"c17.complete.scalars": 1111900})
+    PLANS[_p]["min_counts"]["thorough"].update({"c17.complete.scalars": 1111900})
+    PLANS[_p]["rule"] += (" Completion around every scalar value: for each of the 1,111,902 scalar values >= U+0080 (U+FFFD aside) the names `s<c>t` and {`s<c>a`, `s<c>b`} offered by a run-time Autocomplete, "
+                          "Tab on `s` in buffers of 1 .. len(c)+3 bytes (the free space ends before, after each octet of, and after the character): the line must be a member of the completion model's set, well-formed, and shown as it is.")
